@@ -24,27 +24,27 @@ COMMON_NOTE = (
 )
 
 CHECKS = {
-    "C04": ("seeded simulation: fail events and handled errors injected at seeded (member, line) points through csvpath's external-function seam; one-bit reference model per member monitored online at every probe/yield and against both manifests on disk", "5 C04",
+    "C04": ("seeded simulation: fail events and handled errors injected at seeded (member, line) points through csvpath's external-function seam; one-bit reference model per member monitored online at every probe/yield and against both manifests on disk; one stratum handles the error while every write to stdout fails (ENOSPC), another edits config.ini between two runs", "5 C04",
             "Explores template families whose fail events are unambiguous by construction x 7 run forms x error policies with/without fail; decides monotonicity, valid()/failed() per line and aggregation into results manager and manifests. Not decided: whether an arbitrary program should reach its fail() (C01/C13 territory)."),
-    "C05": ("seeded fault injection: five error kinds planted at seeded line sets x all 64 policy subsets (stratified) x validation-mode overrides x standalone/managed; outcome compared with a flag table", "5 C05",
+    "C05": ("seeded fault injection: nine error kinds planted at seeded line sets (optionally two erroring components per line) x all 64 policy subsets (stratified) x validation-mode overrides x standalone/factory/managed creation; outcome compared with a flag table", "5 C05",
             "Every (policy subset x fault kind) cell is visited in every batch; line positions, scan windows and file shapes are sampled."),
-    "C07": ("seeded simulation of consumer cancellation: next() stepped one yield at a time as reference trace; collect(), fast_forward() and collect(nexts=n) for every n compared with the prefix state of that trace", "5 C07",
+    "C07": ("seeded simulation of consumer cancellation: next() stepped one yield at a time as reference trace; collect(), fast_forward() and collect(nexts=n) for every n compared with the prefix state of that trace; the yielded objects are kept and re-read after the run", "5 C07",
             "Weakest fit for this family (said so in DESIGN.md): the only 'schedule' is where the consumer stops; self-relative oracle, not an independent semantics."),
-    "C08": ("seeded schedule exploration: the two schedules the library has (path-major, line-major) x 3 methods each x member order x if_all_agree x dialect; every member compared with its standalone twin, caller-visible lines with union/intersection", "5 C08",
+    "C08": ("seeded schedule exploration: the two schedules the library has (path-major, line-major) x 3 methods each x member order x if_all_agree x dialect; every member compared with its standalone twin, caller-visible lines with union/intersection; between runs half of the line-count/header cache may be lost, a consumer may read the results on every yield, the named file may be registered anew while the serial generator is suspended", "5 C08",
             "Twin executions of the real code under different schedules; members exclude cross-path signals, references and line rewriting as the statement does."),
-    "C09": ("seeded simulation of run histories (method x termination kind x nasty cells x new/reused instance x clock) with a disk-only archive reader compared against in-memory results and a tee at the spooler seam; sha256 of bytes on disk vs manifests", "5 C09",
+    "C09": ("seeded simulation of run histories (method x termination kind x nasty cells x new/reused instance x clock) with a disk-only archive reader compared against in-memory results and a tee at the spooler seam; sha256 of bytes on disk vs manifests; faults: abandoned generator runs, failed manager calls before a run, one write to a member file torn by ENOSPC, frozen or ticking clock", "5 C09",
             "Relational check of four representations (memory, data files, member manifest, run manifest) over sampled programs and data."),
-    "C10": ("seeded simulation of run histories under a simulated UTC clock (same second, +1s, 12:59->13:00, midnight, +12h, backward step) x new/reused instance x group x 7 run forms x permuted directory listings; model of runs + tree hashes before/after every run + :last/:first resolution", "5 C10",
+    "C10": ("seeded simulation of run histories under a simulated UTC clock (same second, +1s, 12:59->13:00, midnight, +12h, backward step) x new/reused instance x group x 7 run forms x permuted directory listings; model of runs + tree hashes before/after every run + :last/:first resolution; two long-lived instances alternating, interleaved callers (a generator run part-way while another run happens), sub-second and daylight-saving clock values", "5 C10",
             "Flagship time property: every clock relation named in the statement is a generated profile; step-class-pair coverage is reported in the evidence."),
-    "C11": ("seeded operation histories (add / re-add / mutate source / remove / restart, permuted listdir) against an abstract versioned content-addressed store, checked after every operation through a live and a fresh instance and by a disk walk", "5 C11",
+    "C11": ("seeded operation histories (add / re-add / mutate source / remove / bulk and directory registration / restart / swap between two long-lived instances, permuted listdir, clock profiles) against an abstract versioned content-addressed store, checked after every operation through a live and a fresh instance and by a disk walk; I/O faults: the k-th file-system call of a registration or removal fails (EIO) and the call is retried, the copy into the store is torn by ENOSPC (once or persistently)", "5 C11",
             "Model-based simulation of durable-state histories; restart = new CsvPaths over the same world, only durable state survives."),
-    "C12": ("seeded operation histories (add / identical re-add / replace / remove / restart) against an abstract ordered-group store; lookups by name, #id, $name.csvpaths.id, :from, :to through a live and a fresh instance; manifest read from disk", "5 C12",
+    "C12": ("seeded operation histories (add / identical re-add / replace / remove / restart) against an abstract ordered-group store; lookups by name, #id, $name.csvpaths.id, :from, :to through a live and a fresh instance; manifest read from disk; I/O faults: the k-th file-system call of an add or remove fails (EIO) followed by a retry or by putting the previous content back, the group-file write torn by ENOSPC", "5 C12",
             "Model-based simulation; members carry identities in all six spellings with lower-precedence decoys, outer/inner comments and newlines."),
-    "C18": ("fault-point sweep: for each seeded scenario a fault-free run records every (member, line) evaluation event, then the run is repeated in a fresh world with an abort armed at each event in turn; archive read back from disk, store tree hashes, recovery run on the same instance", "5 C18",
+    "C18": ("fault-point sweep: for each seeded scenario a fault-free run records every (member, line) evaluation event, then the run is repeated in a fresh world with an abort armed at each event in turn; archive read back from disk, store tree hashes, recovery run on the same instance; eight ways of aborting (function error, chained error, planted cells, validation-mode raise, projection on a short record, raw exception under last())", "5 C18",
             "Complete sweep of abort points per scenario (crash-consistency idiom); scenarios themselves are sampled, so the level is exploration."),
-    "C19": ("seeded job histories in one long-lived process x warm/cold persisted cache x direct/managed creation; each job compared with its twin run alone in a pristine forked process (sample cross-checked in real fresh interpreters)", "5 C19",
+    "C19": ("seeded job histories in one long-lived process x warm/cold persisted cache x direct/managed creation; each job compared with its twin run alone in a pristine forked process (one job per scenario also in a real fresh interpreter under another hash seed); the file may be replaced or read with another dialect between jobs, the cache may have lost half of its entries, a job may meet a transient read error", "5 C19",
             "Histories of process-global and persisted state; the pristine twin is a forked zygote that imported csvpath but never parsed or ran anything."),
-    "C20": ("seeded simulation of chains (source-mode preceding on any suffix) against a reference executor that composes standalone stages; variable/header/results references against a model of the group's most recent run under the simulated clock", "5 C20",
+    "C20": ("seeded simulation of chains (source-mode preceding on any suffix) against a reference executor that composes standalone stages; variable/header/results references against a model of the group's most recent run under the simulated clock; chains may be interrupted by another run on the same instance or by another instance running the same chain", "5 C20",
             "chain == composition of its stages; 'most recent run' is decided by the simulated clock."),
 }
 
